@@ -158,13 +158,16 @@ Record ostream := {
 }.
 Record istream := { is_cmd : bool; is_rest : bytes }.
 
-Inductive wdest := WStdout | WStream (n : name).
+(* where a print goes: what getOutputStream returns ... *)
+Inductive wtarget := TStdout | TStream (n : name).
+(* ... and what that is at the moment of the write *)
+Inductive wdest := WStdout | WFile (n : name) | WCmd (c : name).
 
 (* what happened, in order of occurrence (newest first) *)
 Inductive event :=
 | EvOpen (n : name) (k : okind) (trunc : bool)   (* an output stream is created for n *)
 | EvWrite (d : wdest) (b : bytes)                (* print/printf hands b to the destination's writer *)
-| EvClose (n : name) (code : Z)                  (* close(n) of an open stream, with its result *)
+| EvClose (n : name) (input : bool) (code : Z)   (* an open stream is closed (close(n), or closeAll), with the result *)
 | EvStart (c : name) (pending : nat) (err : bool)(* a process starts; goawk's stdout buffer holds [pending] bytes *)
 | EvChildAppend (t : name) (b : bytes)           (* a child appends b to file t *)
 | EvChildOut (b : bytes).                        (* a child writes b to the shared standard output *)
@@ -408,7 +411,7 @@ Fixpoint close_streams (E : env) (s : state) (names : list name) : state :=
       match alookup n (st_outs s) with
       | Some o =>
           match close_ostream E (set_outs s (aremove n (st_outs s))) n o with
-          | (s', _, _) => close_streams E s' ns
+          | (s', code, _) => close_streams E (add_log s' (EvClose n false code)) ns
           end
       | None => close_streams E s ns
       end
@@ -445,13 +448,13 @@ Definition open_echo_cmd (E : env) (o : list (name * ostream)) : bool :=
   existsb (fun e => match os_kind (snd e) with KCmd => echo_capable E (fst e) | KFile => false end) o.
 
 (* io.go getOutputStream *)
-Definition get_output_stream (E : env) (s : state) (d : dest) : state * option wdest :=
+Definition get_output_stream (E : env) (s : state) (d : dest) : state * option wtarget :=
   match d with
-  | DStdout | DDash => (s, Some WStdout)
-  | DDevStdout => (flush_out_err E s, Some WStdout)
+  | DStdout | DDash => (s, Some TStdout)
+  | DDevStdout => (flush_out_err E s, Some TStdout)
   | DRedir r n =>
       if amem n (st_ins s) then (s, None)                  (* can't write to reader stream *)
-      else if amem n (st_outs s) then (s, Some (WStream n))
+      else if amem n (st_outs s) then (s, Some (TStream n))
       else
         let s := flush_out_err E s in
         match r with
@@ -462,7 +465,7 @@ Definition get_output_stream (E : env) (s : state) (d : dest) : state * option w
               let fs' := if trunc then aset n [] (st_fs s) else fs_append (st_fs s) n [] in
               let s := add_log (set_fs s fs') (EvOpen n KFile trunc) in
               (set_outs s (aset n {| os_kind := KFile; os_off := (if trunc then Some 0%nat else None); os_buf := []; os_cgfail := false; os_active := false |} (st_outs s)),
-               Some (WStream n))
+               Some (TStream n))
         | RPipe =>
             let s := if (echo_capable E n && open_echo_cmd E (st_outs s)) || negb (c_drain (e_spec E n))
                      then set_unmod s else s in
@@ -474,7 +477,7 @@ Definition get_output_stream (E : env) (s : state) (d : dest) : state * option w
                     let act := negb (match c_stdout (e_spec E n) with [] => true | _ => false end) in
                     let s2 := if act && any_active (st_outs s2) then set_unmod s2 else s2 in
                     (set_outs s2 (aset n {| os_kind := KCmd; os_off := None; os_buf := []; os_cgfail := negb ok; os_active := act |} (st_outs s2)),
-                     Some (WStream n))
+                     Some (TStream n))
                 end
             end
         end
@@ -508,15 +511,15 @@ Definition step (E : env) (s : state) (o : op) : state * outcome :=
   | Print d ps =>
       match get_output_stream E s d with
       | (s1, None) => (s1, Fail)
-      | (s1, Some WStdout) =>
+      | (s1, Some TStdout) =>
           match write_stdout E s1 ps with
           | (s2, true) => (s2, Running)
           | (s2, false) => (s2, Fail)
           end
-      | (s1, Some (WStream n)) =>
+      | (s1, Some (TStream n)) =>
           match alookup n (st_outs s1) with
           | Some os =>
-              let s1 := add_log s1 (EvWrite (WStream n) (concat ps)) in
+              let s1 := add_log s1 (EvWrite (match os_kind os with KFile => WFile n | KCmd => WCmd n end) (concat ps)) in
               match write_ostream E s1 n os (concat ps) with
               | (s2, os') => (set_outs s2 (aset n os' (st_outs s2)), Running)
               end
@@ -528,7 +531,7 @@ Definition step (E : env) (s : state) (o : op) : state * outcome :=
       | Some i =>
           let s := set_ins s (aremove n (st_ins s)) in
           let '(code, err) := if is_cmd i then wait_result (c_exit (e_spec E n)) false else (0, false) in
-          let s := add_log s (EvClose n code) in
+          let s := add_log s (EvClose n true code) in
           let s := if err then print_errorf E s else s in
           (add_obs s (ORet code), Running)
       | None =>
@@ -536,7 +539,7 @@ Definition step (E : env) (s : state) (o : op) : state * outcome :=
           | Some os =>
               match close_ostream E (set_outs s (aremove n (st_outs s))) n os with
               | (s1, code, err) =>
-                  let s1 := add_log s1 (EvClose n code) in
+                  let s1 := add_log s1 (EvClose n false code) in
                   let s1 := if err then print_errorf E s1 else s1 in
                   (add_obs s1 (ORet code), Running)
               end
